@@ -143,7 +143,7 @@ theorem pathOk_ascii (path : Bytes) (h : Spec.ZiPatch.pathOk path = true) : ∀ 
 
 theorem rdSqpk_fileOp (isz : UInt32) (op : UInt8) (fo : FileOp) (hop : fileOpOf op = some fo)
     (off size : UInt64) (exp : UInt16) (path rest : Bytes)
-    (hp : ∀ b ∈ path, b ≠ 0 ∧ b < 128) (hl : path.length < 2 ^ 16) :
+    (hp : ∀ b ∈ path, b ≠ 0 ∧ b < 128) (hl : path.length + 1 < 2 ^ 32) :
     rdSqpk (putU32be isz ++ (fileOpBody op off size exp path ++ rest)) = .ok (.fileOp fo off size exp path) rest := by
   have hn : (u32 (path.length + 1)).toNat = path.length + 1 := u32_toNat _ (by omega)
   have hs := rdString_nul _ path rest hn hp
